@@ -79,6 +79,10 @@ func instancesFor(prop, tier string) []*Instance {
 		c11Instances(add, thorough, 0)
 	case "C16":
 		c16Instances(add, thorough)
+	case "C17":
+		c17Instances(add, thorough)
+	case "C18":
+		c18Instances(add, thorough)
 	case "C08":
 		c08Instances(add, thorough)
 	case "C03":
@@ -925,6 +929,83 @@ func c16Instances(add func(*Instance), thorough bool) {
 					add(&Instance{Func: "VerifC16FromDense", Tier: tier, Params: P("n", n, "pat", pat, "copy", cp, "mth", (n+cp)%2, "nbits", 2, "xb", xb, "xm", 127)})
 				}
 			}
+		}
+	}
+}
+
+func c17Instances(add func(*Instance), thorough bool) {
+	ad := func(pp map[string]int, tier int) {
+		add(&Instance{Pkg: "roaring64", Func: "VerifC17Op", Params: pp, Tier: tier})
+	}
+	top := P("anb", 2, "ane", 1, "akeys", 5, "alow", 3, "alowb", 0, "bnb", 2, "bne", 1, "bkeys", 5, "blow", 3, "blowb", 0, "xh", 0xFFFFFFF0, "xb", 0, "xm", 0xF00000003)
+	free := P("anb", 2, "ane", 1, "akeys", 0, "bnb", 1, "bne", 1, "bkeys", 0, "xm", -1)
+	for op := 0; op <= 7; op++ {
+		ad(with(top, "op", op), 0)
+		ad(with(top, "op", op, "acow", 1, "bcow", 1, "ane", 2), 1)
+		if op >= 4 {
+			ad(with(top, "op", op, "self", 1), 0)
+		}
+		ad(with(free, "op", op), 1)
+	}
+	for op := 8; op <= 12; op++ {
+		ad(with(free, "op", op), 0)
+		ad(with(P("anb", 2, "ane", 1, "akeys", 2, "xm", -1), "op", op), 0)
+		ad(with(P("anb", 1, "ane", 2, "akeys", 1, "xm", -1, "acow", 1), "op", op), 0)
+	}
+	// ranges crossing a 2^32 boundary, inside the last bucket, and creating / emptying buckets
+	for op := 13; op <= 16; op++ {
+		ln := 15
+		if op >= 15 {
+			ln = 7
+		}
+		ad(with(P("anb", 2, "ane", 1, "akeys", 4, "alow", 7, "alowb", 4294967288, "xh", 0, "xb", 4294967280, "xm", 63), "op", op, "sh", 0, "sb", 4294967290, "sm", 7, "len", ln), 0)
+		ad(with(P("anb", 2, "ane", 1, "akeys", 2, "alow", 7, "alowb", 4294967288, "xh", 0xFFFFFFFF, "xb", 4294967264, "xm", 31), "op", op, "sh", 0xFFFFFFFF, "sb", 4294967280, "sm", 7, "len", 7), 0)
+		ad(with(P("anb", 1, "ane", 2, "akeys", 4, "alow", 7, "alowb", 0, "xh", 0, "xb", 4294967280, "xm", 63), "op", op, "sh", 0, "sb", 4294967290, "sm", 7, "len", ln), 0)
+		ad(with(P("anb", 2, "ane", 1, "akeys", 6, "alow", 7, "alowb", 4294967288, "xh", 0, "xb", 4294967280, "xm", 63), "op", op, "sh", 0, "sb", 4294967290, "sm", 7, "len", ln), 1)
+	}
+	ad(with(top, "op", 17, "bnb", 1), 0)
+	ad(with(P("anb", 2, "ane", 2, "akeys", 4, "alow", 7, "alowb", 0, "bnb", 1, "bne", 2, "bkeys", 4, "blow", 7, "blowb", 0, "xh", 0, "xb", 0, "xm", 0x10000000F), "op", 17), 0)
+	ad(with(free, "op", 18), 0)
+	ad(with(P("anb", 2, "ane", 2, "akeys", 3, "xm", -1), "op", 18), 0)
+	ad(with(P("anb", 3, "ane", 1, "akeys", 2, "xm", -1), "op", 18), 1)
+	for g := 0; g <= 3; g++ {
+		for _, w := range []int{1, 2} {
+			if g < 2 && w == 2 {
+				continue
+			}
+			ad(with(top, "op", 19, "g", g, "w", w, "cnb", 1, "cne", 1, "ckeys", 5, "clow", 3, "clowb", 0), 0)
+			ad(with(P("anb", 2, "ane", 1, "akeys", 4, "alow", 3, "bnb", 2, "bne", 1, "bkeys", 4, "blow", 3, "cnb", 1, "cne", 1, "ckeys", 4, "clow", 3, "xh", 0, "xb", 0, "xm", 0x100000003), "op", 19, "g", g, "w", w), 0)
+		}
+	}
+	ad(with(free, "op", 20, "acow", 1), 0)
+}
+
+func c18Instances(add func(*Instance), thorough bool) {
+	shapes := []map[string]int{
+		P("anb", 0),
+		P("anb", 1, "ane", 2, "akeys", 0),
+		P("anb", 2, "ane", 1, "akeys", 0),
+		P("anb", 2, "ane", 2, "akeys", 2, "aopt", 1),
+	}
+	for _, sh := range shapes {
+		for rd := 0; rd <= 2; rd++ {
+			add(&Instance{Pkg: "roaring64", Func: "VerifC18RoundTrip", Params: with(sh, "rd", rd, "wr", rd, "tail", 2, "xm", -1)})
+			if sh["anb"] > 0 {
+				add(&Instance{Pkg: "roaring64", Func: "VerifC18RoundTrip", Params: with(sh, "rd", rd, "wr", 0, "prefix", 1, "xm", -1)})
+			}
+		}
+	}
+	maxL := 12
+	if thorough {
+		maxL = 24
+	}
+	for rd := 0; rd <= 2; rd++ {
+		for L := 0; L <= maxL; L += 1 {
+			add(&Instance{Pkg: "roaring64", Func: "VerifC18Decode", Params: P("L", L, "rd", rd), CheckAlloc: true})
+		}
+		add(&Instance{Pkg: "roaring64", Func: "VerifC18Decode", Params: P("L", 20, "rd", rd), CheckAlloc: true})
+		for c := 1; c <= 3; c++ {
+			add(&Instance{Pkg: "roaring64", Func: "VerifC18Decode", Params: P("L", 0, "corrupt", c, "rd", rd, "anb", 2, "ane", 1, "akeys", 4, "alow", 3), CheckAlloc: true})
 		}
 	}
 }
